@@ -170,17 +170,20 @@ func runC17(c *eng.Ctx) {
 					x, y, eq, isEq := eng.EqAtom(fc)
 					return isEq && eq && tv != nil && eng.SelObj(info, x) == tv && eng.IsNil(info, y)
 				})
+				// scenario: waitForTask returned nil - neither a handler call nor another wait is reachable (the nil-ness
+				// of the task is followed through copies)
 				okNil := false
 				for _, m := range g.Nodes {
 					for _, e := range m.Succ {
 						if nilEdge(e) {
 							okNil = true
-							for x := range reachFromEdge(g, e) {
-								if x == hnode || x == wnode {
-									okNil = false
-								}
-							}
 						}
+					}
+				}
+				if okNil && tv != nil {
+					reachNil := g.Reach(eng.Query{From: []*eng.GNode{wnode}, Nil: []types.Object{tv}})
+					if reachNil[hnode] || reachNil[wnode] {
+						okNil = false
 					}
 				}
 				r1.Check(okNil, start.Key+"$worker nil-stops", wnode.Node.Pos(), "a nil task ends the worker", "when waitForTask returns nil (context cancelled) the worker does not terminate")
